@@ -270,6 +270,20 @@ def clip_compare(ctx, n, model_ok):
                              is_violation={'kind': 'sigmaclip', 'arr': [None if not np.isfinite(x) else x for x in arr.tolist()],
                                            'what': f'sigmaclip(arr, 3, 3) = (mean {im!r}, var {istd ** 2!r}); the model of the unmodified '
                                                    f'code gives (mean {float(m)!r}, var {float(var)!r})'})
+        # the statistic is homogeneous (C06_scale at the level of one box): multiplying the samples by a power of two - exact in
+        # binary64, also for very small and very large units (2^-40, 2^-34, 2^30) - multiplies mean and std by it
+        if ok and float(var) > 0:
+            for kexp in (-40, -34, 30):
+                k = 2.0 ** kexp
+                km, ks = BANE.sigmaclip(arr * k, 3, 3)
+                if not (abs(km - im * k) <= 1e-9 * max(abs(im * k), abs(istd * k)) and abs(ks - istd * k) <= 1e-9 * abs(istd * k)):
+                    nbad += 1
+                    if nbad <= 3:
+                        ctx.mismatch('BANE.sigmaclip is not homogeneous', {'arr': [None if not np.isfinite(x) else x for x in arr.tolist()], 'scale': f'2^{kexp}'},
+                                     impl=[float(km), float(ks)], model=[float(im * k), float(istd * k)],
+                                     is_violation={'kind': 'sigmaclip-scale', 'arr': [None if not np.isfinite(x) else x for x in arr.tolist()], 'kexp': kexp,
+                                                   'what': f'sigmaclip(arr * 2^{kexp}) = ({km!r}, {ks!r}) but 2^{kexp} * sigmaclip(arr) = ({im * k!r}, {istd * k!r})'})
+                    break
     e = BANE.sigmaclip(np.array([np.nan, np.inf]), 3, 3)
     ctx.oblige('sigmaclip of an array without finite values is (nan, nan)', bool(np.isnan(e[0]) and np.isnan(e[1])), e)
     ctx.oblige(f'correspondence: BANE.sigmaclip = Lib.Stats.sigmaclip_q (mean, variance) to 1e-9 on {n - nskip} integer arrays '
@@ -724,6 +738,29 @@ def shrink_oracle(ctx, case, oracle):
     return best
 
 
+def scale_problem(arr, kexp):
+    from AegeanTools import BANE
+    k = 2.0 ** kexp
+    im, istd = BANE.sigmaclip(arr, 3, 3)
+    km, ks = BANE.sigmaclip(arr * k, 3, 3)
+    if not (np.isfinite(im) and np.isfinite(istd)) or istd == 0:
+        return None
+    if not (abs(km - im * k) <= 1e-9 * max(abs(im * k), abs(istd * k)) and abs(ks - istd * k) <= 1e-9 * abs(istd * k)):
+        return f'sigmaclip(arr * 2^{kexp}) = ({km!r}, {ks!r}) but 2^{kexp} * sigmaclip(arr) = ({im * k!r}, {istd * k!r})'
+    return None
+
+
+def homogeneity_problem(rng, n):
+    """sigmaclip(k arr) = k sigmaclip(arr) for exact powers of two, on integer arrays with outliers (no model needed)"""
+    for _ in range(n):
+        arr = np.array(gen_clip_array(rng), dtype=float)
+        for kexp in (-40, -34, 30):
+            msg = scale_problem(arr, kexp)
+            if msg:
+                return {'kind': 'sigmaclip-scale', 'arr': arr.tolist(), 'kexp': kexp, 'what': msg}
+    return None
+
+
 def search(ctx):
     """metamorphic oracles on the real code, structured random configurations"""
     rng = ctx.rng
@@ -732,6 +769,9 @@ def search(ctx):
     if kbad:
         c, msg = kbad[0]
         return {'kind': 'constant', **c, 'what': msg}
+    hb = homogeneity_problem(rng, 300)
+    if hb:
+        return hb
     i = 0
     while time.time() - t0 < 140:
         cases = [gen_oracle_case(rng, f'q{i}_{k}') for k in range(8)]
@@ -767,6 +807,11 @@ def replay(ctx, obj):
             im, istd = BANE.sigmaclip(arr, 3, 3)
             return 0 if abs(im - float(m)) <= 1e-9 * max(1, abs(float(m))) and abs(istd ** 2 - float(var)) <= 1e-9 * max(1, float(var)) else 1
         return 1
+    if kind == 'sigmaclip-scale':
+        arr = np.array([np.nan if v is None else v for v in fi['arr']], dtype=float)
+        msg = scale_problem(arr, fi['kexp'])
+        print('implementation:', msg or 'sigmaclip is homogeneous on this array')
+        return 1 if msg else 0
     if kind == 'oracle':
         c = dict(fi, id='r')
         bad = run_oracles(ctx, [c], 'rp', 2)[0][1]
